@@ -253,6 +253,8 @@ pub struct SpecOut {
     pub csp: Option<BTreeSet<String>>,
     /// texts of the rules that matched (for classifiers / witnesses)
     pub matching: Vec<String>,
+    /// (important hit, blocking hit, plain exception hit, redirect exception hit, important + redirect-rule)
+    pub flags: [bool; 5],
 }
 
 /// The reference verdict of a whole list for one request.
@@ -267,7 +269,7 @@ pub fn spec_check(rules: &[Rule], tags: &HashSet<String>, req: &Request, orig_ur
     };
     if !req.is_supported {
         // "Requests with unsupported schemes are never matched."
-        return SpecOut { verdict: none, csp: None, matching: vec![] };
+        return SpecOut { verdict: none, csp: None, matching: vec![], flags: [false; 5] };
     }
     let active = active_rules_by_text(rules, tags);
     spec_check_active(&active, req, orig_url, store)
@@ -284,7 +286,7 @@ pub fn spec_check_active(active: &[&Rule], req: &Request, orig_url: &str, store:
         hits: 0,
     };
     if !req.is_supported {
-        return SpecOut { verdict: none, csp: None, matching: vec![] };
+        return SpecOut { verdict: none, csp: None, matching: vec![], flags: [false; 5] };
     }
     let hits: Vec<&Rule> = active.iter().copied().filter(|r| rule_matches(r, req)).collect();
     let matching: Vec<String> = hits.iter().map(|r| r.text.clone()).collect();
@@ -353,7 +355,39 @@ pub fn spec_check_active(active: &[&Rule], req: &Request, orig_url: &str, store:
         verdict: SpecVerdict { matched, important, exception, redirect, rewritten, hits: hits.len() },
         csp,
         matching,
+        flags: [important_hit, blocking_hit, plain_exception_hit, redirect_exception_hit, important_redirect_rule],
     }
+}
+
+/// The two restricted forms of the check (`check_network_request_subset`), used when engines are
+/// chained: (a) `previously_matched_rule`: an earlier engine blocks the request; this engine's own
+/// blocking rules are not needed, its important rules and exceptions are; (b)
+/// `force_check_exceptions`: exceptions are reported even if nothing of this engine blocks.
+/// Returns the expected (matched, important, exception) of each form.
+pub fn spec_subset(s: &SpecOut) -> [(Expect<bool>, Expect<bool>, Expect<bool>); 2] {
+    let [important_hit, blocking_hit, plain_exc, redirect_exc, important_redirect_rule] = s.flags;
+    if important_redirect_rule {
+        return [(Expect::Unspec, Expect::Unspec, Expect::Unspec), (Expect::Unspec, Expect::Unspec, Expect::Unspec)];
+    }
+    if important_hit {
+        let v = (Expect::Is(true), Expect::Is(true), Expect::Is(false));
+        return [v.clone(), v];
+    }
+    let a = if plain_exc {
+        (Expect::Is(false), Expect::Is(false), Expect::Is(true))
+    } else if redirect_exc {
+        (Expect::Unspec, Expect::Is(false), Expect::Unspec)
+    } else {
+        (Expect::Is(true), Expect::Is(false), Expect::Is(false))
+    };
+    let b = if plain_exc {
+        (Expect::Is(false), Expect::Is(false), Expect::Is(true))
+    } else if redirect_exc {
+        (Expect::Unspec, Expect::Is(false), Expect::Unspec)
+    } else {
+        (Expect::Is(blocking_hit), Expect::Is(false), Expect::Is(false))
+    };
+    [a, b]
 }
 
 pub fn diff_verdict(spec: &SpecVerdict, got: &crate::net::Verdict) -> Option<&'static str> {
@@ -406,13 +440,30 @@ pub fn compare_engine_active(
     match got {
         Err(loc) => (Some(format!("panic@{}", loc)), spec, None),
         Ok((v, csp)) => {
-            let d = diff_verdict(&spec.verdict, &v).map(|s| s.to_string()).or_else(|| {
+            let mut d = diff_verdict(&spec.verdict, &v).map(|s| s.to_string()).or_else(|| {
                 if csp != spec.csp {
                     Some("csp".to_string())
                 } else {
                     None
                 }
             });
+            // the restricted forms of the check, for requests some rule of the list matches
+            if d.is_none() && spec.verdict.hits > 0 && req.is_supported {
+                let exp = spec_subset(&spec);
+                for (k, (prev, force)) in [(true, false), (false, true)].iter().enumerate() {
+                    match crate::util::catch(|| crate::net::Verdict::of(&e.check_network_request_subset(req, *prev, *force))) {
+                        Err(loc) => d = Some(format!("subset-panic@{}", loc)),
+                        Ok(g) => {
+                            if !(exp[k].0.accepts(&g.matched) && exp[k].1.accepts(&g.important) && exp[k].2.accepts(&g.exception)) {
+                                d = Some(format!("subset({},{})", prev, force));
+                            }
+                        }
+                    }
+                    if d.is_some() {
+                        break;
+                    }
+                }
+            }
             (d, spec, Some((v, csp)))
         }
     }
